@@ -3,6 +3,7 @@ Model: Expand.tla (loop with PassLimit) + PTQueue.tla; verdict: TrPTQ (order / o
 import json
 import os
 import random
+import re
 import time
 from concurrent.futures import ThreadPoolExecutor
 
@@ -40,6 +41,19 @@ def main(pid, tier, seed):
         d = os.path.join(work, 'r%d' % k)
         desc = [expand.tie_group_ruleset, expand.dyadic_prince_ruleset, expand.rich_ruleset, ptq.random_float_ruleset][k % 4](rng, d)
         rdirs.append((d, desc))
+    d = os.path.join(work, 'long')
+    rdirs.append((d, expand.long_alpha_ruleset(rng, d)))
+    # the PRINCE grammar's structures as loaded: every alpha variable with the case masks of ITS length (Loader.tla InsertC)
+    from . import check_loader, rulesets
+    ltraces, lmeta = [], {}
+    for d, desc in rdirs:
+        recs = rulesets.neutral_value_prob(os.path.join(d, 'Prince', 'grammar.txt'))
+        pcfg = ptq.load_pcfg(d, folder='Prince')
+        labels = [[[m.group(1), int(m.group(2) or 0)] for m in re.finditer(r'([A-Z])([0-9]*)', v)] for v, _ in recs]
+        loaded = [check_loader.parse_reps(b['replacements']) for b in pcfg.base]
+        ltraces.append({'tid': len(ltraces) + 1, 'kind': 'structs', 'labels': labels, 'loaded': loaded})
+        lmeta[len(ltraces)] = {'ruleset': desc, 'check': 'prince structures as loaded', 'file': [v for v, _ in recs][:8],
+                               'loaded': [b['replacements'] for b in pcfg.base][:8]}
     cli_jobs = []
     for d, desc in rdirs:
         for flags in (dict(), dict(skip_case=True)):
@@ -49,7 +63,9 @@ def main(pid, tier, seed):
             tid += 1
             p, _ = ptq.to_traces(tid, pcfg, hist, 'ALL', exact=False)
             qtraces.append(p)
-            meta[tid] = {'ruleset': desc, 'flags': flags, 'check': 'prince queue order / once'}
+            meta[tid] = {'ruleset': desc, 'flags': flags, 'check': 'prince queue order / once', 'raised': hist.get('raised')}
+            if hist.get('raised'):
+                continue          # reported by the trace above (run_does_not_raise); nothing further can be enumerated
             # each pre-terminal = product of its groups
             fileprobs = expand.file_prob_ranks(d, pcfg)
             for b, pt in expand.all_pts(pcfg):
@@ -124,6 +140,12 @@ def main(pid, tier, seed):
     with open(upfile, 'w') as f:
         json.dump(expand.up_table(strings), f)
     v2, st2 = core.validate_traces('TrExpand.tla', etraces, env={'UP_FILE': upfile}, chunk=150, timeout=600)
+    v3, st3 = core.validate_traces('TrLoader.tla', ltraces, chunk=200, timeout=300)
+    for t in ltraces:
+        v = v3[t['tid']]
+        if v[0] != 'ACCEPT':
+            m = lmeta[t['tid']]
+            verdict.violation(dict(m, clause='C17_' + str(v[2])), 'clause C17_%s; file %s loaded %s' % (v[2], m['file'], m['loaded']))
     for t in qtraces:
         v = v1[t['tid']]
         if v[0] != 'ACCEPT':
